@@ -166,12 +166,13 @@ def check_C01(A: Analysis, tier):
     if not seeks0:
         rd1.fail(itf, "self._obj.seek(0)", "the stream is not rewound to offset 0 before it is read: a stream handed over at a non-zero offset is stored "
                  "(and hashed) only from that offset on", A.p.loc(itf, itf.node))
-    reads = [a for a in ast.walk(lp) if isinstance(a, ast.Assign) and isinstance(a.value, ast.Call) and norm(a.value.func) == "self._obj.read"
-             and isinstance(a.targets[0], ast.Name)]
-    walrus = [w for w in ast.walk(lp.test) if isinstance(w, ast.NamedExpr) and isinstance(w.value, ast.Call) and norm(w.value.func) == "self._obj.read"] \
+    yname = yields[0].value.id if isinstance(yields[0], ast.Yield) and isinstance(yields[0].value, ast.Name) else None
+    reads = [a for a in ast.walk(lp) if isinstance(a, ast.Assign) and isinstance(a.value, ast.Call) and isinstance(a.targets[0], ast.Name)
+             and a.targets[0].id == yname]
+    walrus = [w for w in ast.walk(lp.test) if isinstance(w, ast.NamedExpr) and isinstance(w.value, ast.Call) and w.target.id == yname] \
         if isinstance(lp, ast.While) else []
     if len(reads) + len(walrus) != 1:
-        raise AnalysisError("Stream.__iter__: expected exactly one `x = self._obj.read(...)` (or `while x := self._obj.read(...)`) in the loop")
+        raise AnalysisError("Stream.__iter__: expected exactly one `x = <read call>` (or `while x := <read call>`) producing the yielded chunk")
     if walrus:
         var = walrus[0].target.id
         rcall = walrus[0].value
@@ -179,6 +180,9 @@ def check_C01(A: Analysis, tier):
     else:
         var = reads[0].targets[0].id
         rcall = reads[0].value
+    if norm(rcall.func) != "self._obj.read":
+        rd1.fail(itf, rcall, f"chunks are obtained with `{norm(rcall.func)}(...)`, not `self._obj.read(...)` of the wrapped object: other read primitives "
+                 "(read1, readline, a cached bound method) may return short blocks or different data", A.p.loc(itf, rcall))
     rarg = rcall.args[0] if rcall.args else None
     if rarg is not None and not (norm(rarg) == "self._buffer_size" or isinstance(rarg, (ast.Name, ast.Attribute))):
         rd1.fail(itf, reads[0], f"chunks are read with size `{norm(rarg)}`, not the stream's buffer size", A.p.loc(itf, reads[0]))
@@ -525,6 +529,12 @@ def check_C02(A: Analysis, tier):
         re2.fail(ca, "lower()", "_clean_algorithm no longer case-folds the name", A.p.loc(ca, ca.node))
     rules.append(re2)
 
+    from .rules_locks import shared_state_rule
+    rs2 = Rule("C02", "C02.f", "nothing a call computes is stored in the shared store object (shared with C07.g): results cannot depend on "
+               "other calls through instance state", floor=10)
+    shared_state_rule(A, rs2)
+    rules.append(rs2)
+
     rd = Rule("C02", "C02.d", "the digest map's keys are exactly the list _refine_algorithm_list returned for this "
               "call's own arguments", floor=2)
     it = A.api("store_object", "th")
@@ -669,6 +679,12 @@ def check_C06(A: Analysis, tier):
                 if not all(tag(t) == "iattr" and t[2] == "cid" for t in v):
                     rd.fail(c["func"], c["node"], "delete_if_invalid_object deletes something other than object_metadata.cid", A.p.loc(c["func"], c["node"]))
     rules.append(rd)
+
+    from .rules_locks import shared_state_rule
+    rs6 = Rule("C06", "C06.f", "the verdict and its clean-up use only this call's own values: no per-call state is parked in the shared "
+               "store object (shared with C07.g)", floor=10)
+    shared_state_rule(A, rs6)
+    rules.append(rs6)
 
     re_ = Rule("C06", "C06.e", "a checksum without its algorithm, or the reverse, is rejected", floor=2)
     for label, ov in (("checksum without algorithm", {"checksum": V(C("abc")), "checksum_algorithm": V(NONE), "additional_algorithm": V(NONE)}),
